@@ -46,7 +46,26 @@ def spellings(tier):
             v = base + k / 100.0
             if v > 0:
                 out.append(('%.2f' % v).rstrip('0').rstrip('.') + 'K')
+    for n in range(1, 101 if tier == 'thorough' else 43):      # two-decimal spellings whose first decimal is 0: 6.05K, 8.02K, 3.07M ...
+        for d in range(1, 10):
+            out.append('%d.0%dK' % (n, d))
+            if n <= 30:
+                out.append('%d.0%dM' % (n, d))
+    for n in (3, 6, 7, 8, 16):                                # and all other two-decimal spellings for a few whole parts
+        for d in range(10, 100, 1 if tier == 'thorough' else 5):
+            out.append('%d.%02dK' % (n, d))
     return list(dict.fromkeys(out))
+
+
+def true_metres(code):
+    """the distance a spelling denotes, computed here from its text: bare metres, N[.d]K = kilometres, N[.d]M = miles of 1609.344 m"""
+    from decimal import Decimal
+    u = code.upper()
+    if u.endswith('K'):
+        return Decimal(u[:-1]) * 1000
+    if u.endswith('M'):
+        return Decimal(u[:-1]) * Decimal('1609.344')
+    return Decimal(u)
 
 
 def work(chunk):
@@ -80,12 +99,16 @@ def work_year(chunk):
     prev_best = None
     for code in codes:
         if code.upper() in tab_codes:
-            prev_best = None if not code.isdigit() else prev_best
             continue
         d = gd(code)
         if d is None:
             continue
-        km = d / 1000.0
+        tm = true_metres(code)
+        slack = 1 + (0.35 * float(code[:-1]) if code.upper().endswith('M') else 0)       # whole metres; a mile may be counted as 1609 m
+        if abs(tm - d) > slack:
+            acc.bad('distance-of-spelling-wrong', dict(code=code), 'get_distance(%r) = %r, the spelling denotes %s m' % (code, d, tm))
+        d = int(tm) if tm == int(tm) else float(tm)
+        km = float(tm) / 1000.0
         below = [k for k in kms if k < km]
         above = [k for k in kms if k > km]
         same = [k for k in kms if k == km]
@@ -109,10 +132,9 @@ def work_year(chunk):
                     acc.bad('best-outside-bracketing-rows', case, 'best %r, bracketing rows %r' % (b, [(r[0], r[2]) for r in R]))
                 else:
                     acc.nontrivial += 1
-                if code.isdigit() and prev_best is not None and prev_best[0] < d and not b > prev_best[1]:
-                    acc.bad('best-not-increasing-with-distance', dict(case, previous=prev_best), 'best %r at %d m, %r at %d m' % (b, d, prev_best[1], prev_best[0]))
-            if code.isdigit():
-                prev_best = (d, b) if inside else None
+                if prev_best is not None and prev_best[0] + prev_best[2] + slack < d and not b > prev_best[1]:
+                    acc.bad('best-not-increasing-with-distance', dict(case, previous=prev_best), 'best %r at %s m, %r at %s m' % (b, d, prev_best[1], prev_best[0]))
+            prev_best = (d, b, slack) if inside else None
         # ---- factor
         for age in ages_req:
             fs = [c14.oracle_factor(ages, r[3:], age) for r in R]
@@ -156,7 +178,7 @@ def run(tier):
         for a, b in common.split_range(0, len(D), n):
             chunks.append(((2015, 2023) if j % 2 == 0 else (2023, 2015), g, D[max(0, a - 1):b]))
             j += 1
-        S = spellings(tier)
+        S = sorted(spellings(tier), key=true_metres)
         for a, b in common.split_range(0, len(S), 8):
             chunks.append(((2015, 2023) if j % 2 == 0 else (2023, 2015), g, S[a:b]))
             j += 1
